@@ -240,3 +240,15 @@ for Atomic<'static, ItemType, BUFFER_SIZE, MAX_STREAMS> {
     }
 
 }
+
+
+/// verification only: access to the streams bookkeeping of this channel
+#[cfg(feature = "verif")]
+impl<'a, ItemType:          'a + Send + Sync + Debug + Default,
+         const BUFFER_SIZE: usize,
+         const MAX_STREAMS: usize>
+Atomic<'a, ItemType, BUFFER_SIZE, MAX_STREAMS> {
+    pub fn verif_streams_manager(&self) -> &StreamsManagerBase<MAX_STREAMS> {
+        &self.streams_manager
+    }
+}
